@@ -40,6 +40,14 @@ func (v *Votes) Validate() error {
 }
 
 func (v *Voter) Validate() error {
+	// a pending voter (added by the relayer contract, not registered yet) carries the
+	// SHA-256 hash of its vote key; the key itself replaces it on registration
+	if v.Status == VOTER_STATUS_PENDING {
+		if len(v.VoteKey) != sha256.Size {
+			return errors.New("invalid bls pubkey hash length")
+		}
+		return nil
+	}
 	if len(v.VoteKey) != goatcrypto.PubkeyLength {
 		return errors.New("invalid bls pubkey length")
 	}
